@@ -1,7 +1,7 @@
 """Property registry: which contract modules serve which property, and what
 each claim leaves unverified (text copied into every evidence file)."""
 
-ALL_MODULES = ["contracts.c17", "contracts.c12", "contracts.c13", "contracts.c18", "contracts.c09", "contracts.c05", "contracts.c16", "contracts.c04", "contracts.c02", "contracts.c11", "contracts.c19", "contracts.c03", "contracts.c07", "contracts.c06", "contracts.c08", "contracts.c02_txn", "contracts.c02_pairs"]
+ALL_MODULES = ["contracts.c17", "contracts.c12", "contracts.c13", "contracts.c18", "contracts.c09", "contracts.c05", "contracts.c16", "contracts.c04", "contracts.c02", "contracts.c11", "contracts.c19", "contracts.c03", "contracts.c07", "contracts.c06", "contracts.c08", "contracts.c02_txn", "contracts.c02_pairs", "contracts.c05_prune"]
 
 SPECS = {
     "C17": {
